@@ -1,5 +1,7 @@
 import Gv.Oracle.Common
+import Gv.Oracle.Floats
 import Gv.Model.Stats
+import Gv.Model.Pssm
 import Gv.Spec.Stats
 /-! Oracle handlers for C14 (column statistics). -/
 namespace Gv.Oracle.StatsOps
@@ -15,6 +17,53 @@ def hex16 (n : Nat) : String :=
 
 /-- floats travel as `f:<IEEE bits>`; the driver compares them by class and relative tolerance -/
 def fstr (x : Float) : String := "f:" ++ hex16 x.toBits.toNat
+
+/-- the bit pattern of a float token `f:<16 hex digits>[:decimal]` -/
+def tokFloat? (t : String) : Option Float :=
+  match t.splitOn ":" with
+  | "f" :: b :: _ =>
+    if b.length != 16 then none else
+    (b.toList.foldlM (fun (acc : UInt64) c => (hexVal c).map fun v => acc * 16 + UInt64.ofNat v) 0).map Float.ofBits
+  | _ => none
+
+/-- a pseudo-count argument `n` or `n/d` (integers): `float64(n) / float64(d)` as the harness computes it -/
+def fracFloat? (s : String) : Option Float :=
+  let toF (i : Int) : Float := if i < 0 then -(Float.ofNat i.natAbs) else Float.ofNat i.toNat
+  match s.splitOn "/" with
+  | [n] => (parseInt? n).map toF
+  | [n, d] => do let n ← parseInt? n; let d ← parseInt? d; pure (toF n / toF d)
+  | _ => none
+
+/-- the body of a `pssm` answer: `key=f:..+f:..,key=…` -/
+def decPssm (body : String) : Option (List (Nat × List Float)) :=
+  (decStrs body).mapM fun e =>
+    match e.splitOn "=" with
+    | [k, vs] => do let k ← k.toNat?; let vs ← (vs.splitOn "+").mapM tokFloat?; pure (k, vs)
+    | _ => none
+
+def encPssm (t : List (Nat × List Float)) : String :=
+  strJoin (t.map fun p => toString p.1 ++ "=" ++ "+".intercalate (p.2.map fstr))
+
+/-- relative tolerance of the PSSM correspondence: `math.Log` of Go and of the C library may differ in the last
+place, and the logo entropy sums up to 20 such terms -/
+def pssmTol : Float := 1e-9
+
+def pssmClose (a b : List (Nat × List Float)) : Bool :=
+  a.length == b.length && (a.zip b).all fun (x, y) =>
+    x.1 == y.1 && x.2.length == y.2.length && (x.2.zip y.2).all fun (u, v) => F.close pssmTol 1e-300 u v
+
+/-- the frequency-normalised PSSM by its definition, evaluated naively on the columns: for every alphabet
+character (increasing) and site, `(number of rows holding it (either case) + pseudo-count) / (number of rows +
+alphabet size × pseudo-count)`; its base-2 logarithm when asked; plain counts (+ pseudo-count) without
+normalisation -/
+def pssmNaive (rows : Rows) (L : Nat) (chars : List Byte) (lg : Bool) (pseudo : Float) (freq : Bool) : List (Nat × List Float) :=
+  let add := if pseudo > 0 then pseudo else 0
+  let denom := Float.ofNat rows.length + Float.ofNat chars.length * pseudo
+  (chars.mergeSort fun a b => decide (a ≤ b)).map fun c =>
+    (c.toNat, (List.range L).map fun j =>
+      let x := Float.ofNat (Spec.occ Spec.upperCase (Spec.column rows j) c) + add
+      let x := if freq then x / denom else x
+      if lg then Float.log x / Float.log 2 else x)
 
 def encMap (m : List (Byte × Nat)) : String :=
   if m.isEmpty then "_" else ",".intercalate (m.map fun p => toString p.1.toNat ++ "=" ++ toString p.2)
@@ -90,42 +139,61 @@ def handle : Handler := fun op args impl =>
     some ⟨g ++ " " ++ z ++ " " ++ z ++ " " ++ mu ++ " " ++ z ++ " " ++ z, verdictOf (impl == e) "uniques-naive"⟩
   | "uniquesprof", [alpha, rows, prows] => do
     -- the three outputs (unique / new / both) of the two counters with a count profile built from a second
-    -- alignment: naive recounts (`Gv.Spec.Stats`); they serve as model and as predicate
+    -- alignment.  Model: the Go loops (`numGapsUniqueProf`, `numMutationsUniqueProf` on the modelled profile);
+    -- predicate: the naive recounts of `Gv.Spec.Stats` on the implementation's answer
     let alpha ← alpha.toNat?
     let rows ← decRows rows
     let prows ← decRows prows
     let L := (lenOf rows).toNat
     let Lp := (lenOf prows).toNat
     if (rows ++ prows).any (fun r => r.2.any fun c => c ≥ 130) then some ⟨"unmodelled", "na"⟩ else
-    if !Spec.profileFits prows Lp L then some ⟨"err", verdictOf (impl == "err") "profile-length-must-be-checked"⟩ else
+    let enc3 (t : List Nat × List Nat × List Nat) : String := plus t.1 ++ " " ++ plus t.2.1 ++ " " ++ plus t.2.2
+    let m := match countProfile prows (lenOf prows) with
+      | none => "panic"
+      | some prof =>
+        match numGapsUniqueProf rows (lenOf rows) prof, numMutationsUniqueProf rows (lenOf rows) alpha prof with
+        | some g, some (some mu) => enc3 g ++ " " ++ enc3 mu
+        | _, none => "panic"
+        | _, _ => "err"
+    if !Spec.profileFits prows Lp L then some ⟨m, verdictOf (impl == "err") "profile-length-must-be-checked"⟩ else
     let idx := List.range rows.length
     let g := idx.map (Spec.gapsWithProfileOf rows prows L)
     let mu := idx.map (Spec.mutationsWithProfileOf (Spec.wildcardOf alpha) rows prows L)
     let e := plus (g.map (·.1)) ++ " " ++ plus (g.map (·.2.1)) ++ " " ++ plus (g.map (·.2.2)) ++ " " ++
       plus (mu.map (·.1)) ++ " " ++ plus (mu.map (·.2.1)) ++ " " ++ plus (mu.map (·.2.2))
-    some ⟨e, verdictOf (impl == e) "uniques-with-profile-naive"⟩
+    some ⟨m, verdictOf (impl == e) "uniques-with-profile-naive"⟩
   | "pssm", [alpha, rows, lg, pseudo, norm, _] => do
-    -- Pssm is not modelled: repeated calls must agree; without normalisation, pseudo-count and logarithm the
-    -- entries are the naive counts of the (upper-cased) alphabet characters per site
+    -- model: `Gv.Model.pssm` at `Float`, compared with the implementation's bit patterns by class and relative
+    -- tolerance (the implementation's text is echoed when they agree); repeated calls must agree; predicate: without
+    -- normalisation / with the frequency normalisation the entries are what the definition says on the naive counts
     let alpha ← alpha.toNat?
     let rows ← decRows rows
+    let ps ← fracFloat? pseudo
+    let nm ← parseInt? norm
+    let L := lenOf rows
+    if (rows.any fun r => r.2.any fun c => c ≥ 128) then some ⟨"unmodelled", "na"⟩ else
     if impl.startsWith "NONDET" then some ⟨impl, "fail:nondeterministic"⟩ else
-    if !(lg == "0" && pseudo == "0" && norm == "0") || !impl.startsWith "ok " then some ⟨impl, "pass"⟩ else
-    let L := (lenOf rows).toNat
-    let okEntry (e : String) : Bool :=
-      match e.splitOn "=" with
-      | [k, vs] =>
-        match k.toNat? with
-        | none => false
-        | some k =>
-          let decs := (vs.splitOn "+").map fun t => (t.splitOn ":").getD 2 "?"
-          decs == (List.range L).map fun j => toString (Spec.occ Spec.upperCase (Spec.column rows j) (UInt8.ofNat k))
-      | _ => false
-    let body := (impl.drop 3).toString
-    let chars : List Byte := if alpha == 0 then Gen.stdaminoacid else Gen.stdnucleotides
-    let keys := (decStrs body).filterMap fun e => ((e.splitOn "=").getD 0 "").toNat?
-    let okKeys := keys == (chars.map (·.toNat)).mergeSort (fun a b => decide (a ≤ b))
-    some ⟨impl, if !okKeys then "fail:pssm-alphabet" else verdictOf ((decStrs body).all okEntry) "pssm-counts-naive"⟩
+    let sortT (t : List (Byte × List Float)) : List (Nat × List Float) :=
+      (t.mergeSort fun a b => decide (a.1 ≤ b.1)).map fun p => (p.1.toNat, p.2)
+    match Model.pssm (α := Float) rows L alpha (decBool lg) ps nm with
+    | .panic => some ⟨"panic", if impl.startsWith "panic" then "fail:pssm-crash" else "na"⟩
+    | .err => some ⟨"err", if impl.startsWith "panic" then "fail:pssm-crash" else "na"⟩
+    | .ok t =>
+      let mt := sortT t
+      if impl.startsWith "panic" then some ⟨"ok " ++ encPssm mt, "fail:pssm-crash"⟩ else
+      if !impl.startsWith "ok " then some ⟨"ok " ++ encPssm mt, "na"⟩ else
+      match decPssm (impl.drop 3).toString with
+      | none => some ⟨"ok " ++ encPssm mt, "fail:unparsable"⟩
+      | some it =>
+        let m := if pssmClose mt it then impl else "ok " ++ encPssm mt
+        let chars : List Byte := if alpha == 0 then Gen.stdaminoacid else Gen.stdnucleotides
+        let okKeys := it.map (·.1) == (chars.map (·.toNat)).mergeSort (fun a b => decide (a ≤ b))
+        let v :=
+          if !okKeys then "fail:pssm-alphabet"
+          else if nm == 0 then verdictOf (pssmClose (pssmNaive rows L.toNat chars (decBool lg) ps false) it) "pssm-counts-naive"
+          else if nm == 1 then verdictOf (pssmClose (pssmNaive rows L.toNat chars (decBool lg) ps true) it) "pssm-frequencies-naive"
+          else "pass"
+        some ⟨m, v⟩
   | "profile", [_, rows, code, site] => do
     let rows ← decRows rows
     let code ← code.toNat?
